@@ -36,7 +36,7 @@ def conv(v):
     return v
 
 
-def build_fcp(decls, default_impls=False):
+def build_fcp(decls, default_impls=False, with_meta=True):
     from fcp.specs.v2 import FcpV2
     from fcp.specs.struct import Struct
     from fcp.specs.struct_field import StructField
@@ -49,7 +49,8 @@ def build_fcp(decls, default_impls=False):
     from fcp.specs.metadata import MetaData
 
     def meta(i):
-        return MetaData(i + 1, i + 1, 1, 1, 0, 0, "main.fcp")
+        # with_meta=False: the way the repository's own tests/fcp_builder.py builds nodes (no source position)
+        return MetaData(i + 1, i + 1, 1, 1, 0, 0, "main.fcp") if with_meta else None
 
     kinds = {}
     for d in decls:
